@@ -450,6 +450,12 @@ static Janet cfun_it_##type##_##name(int32_t argc, Janet *argv) { \
 #define DIVZERO_div janet_panic("division by zero")
 #define DIVZERO_rem janet_panic("division by zero")
 #define DIVZERO_mod return janet_wrap_abstract(box)
+/* Inside the operand loop of a variadic method: a zero divisor leaves the dividend as it is and the
+ * remaining operands are still applied, as the function mod does */
+#define DIVZERO_LOOP(name) DIVZERO_LOOP_##name
+#define DIVZERO_LOOP_div janet_panic("division by zero")
+#define DIVZERO_LOOP_rem janet_panic("division by zero")
+#define DIVZERO_LOOP_mod continue
 
 #define DIVMETHOD(T, type, name, oper) \
 static Janet cfun_it_##type##_##name(int32_t argc, Janet *argv) { \
@@ -458,7 +464,7 @@ static Janet cfun_it_##type##_##name(int32_t argc, Janet *argv) { \
     *box = janet_unwrap_##type(argv[0]); \
     for (int32_t i = 1; i < argc; i++) { \
       T value = janet_unwrap_##type(argv[i]); \
-      if (value == 0) DIVZERO(name); \
+      if (value == 0) DIVZERO_LOOP(name); \
       *box oper##= value; \
     } \
     return janet_wrap_abstract(box); \
